@@ -135,6 +135,12 @@ def needs_parens(src):
 
 ANNOTATIONS = ['int', 'str', 'float', 'list', 'dict', 'object', 'list[int]', 'dict[str, int]', 'int | None', "'Forward'", 'tuple[int, ...]',
                'G2.__class__', 'None', 'bytes', "'list[int]'", 'type(None)', 'bool']
+# annotations the compiler does not turn into C/exact types (annotation_typing stays at its default: on)
+SAFE_ANNOTATIONS = ['object', "'Forward'", 'G2.__class__', 'G1', "'Also.Forward'", 'G3["k"]', 'object']
+# typed annotations with a default of the matching type (a mismatching default is rejected at compile time)
+TYPED_ANNOTATIONS = [('int', '3'), ('int', '-1'), ('float', '2.5'), ('str', "'s'"), ('list', '[]'), ('dict', '{}'), ('bool', 'True'), ('bytes', "b'x'"),
+                     ('list[int]', '[1]'), ('dict[str, int]', "{'a': 1}"), ('tuple[int, ...]', '(1, 2)'), ('str', "'\\xe9'"), ('float', '-0.5'),
+                     ('int', '10 ** 2'), ('int | None', 'None'), ("'list[int]'", '[2]'), ("'int'", '4'), ('int | None', '5')]
 DOCS = [None, None, 'A docstring.', 'Multi\n    line\n    doc.', 'Non-ASCII: \\xe9 \\u20ac.', 'x', '  leading space', 'Args:\n        a: thing\n']
 NAMES = ['a', 'b', 'c', 'dd', 'ee', 'flag', 'value', 'opt', 'n', 'k_w']
 
@@ -160,18 +166,25 @@ def gen_def(rng, eg, name, indent='', first=None, depth=2):
         if want_default:
             d, np = eg.default(rng.choice([1, 2, 2, depth]))
             nparens += np
-        ann = rng.choice(ANNOTATIONS) if rng.random() < .25 else None
+        ann = None
+        r = rng.random()
+        if r < .15:
+            ann = rng.choice(SAFE_ANNOTATIONS)
+        elif r < .27:
+            ann, td = rng.choice(TYPED_ANNOTATIONS)
+            if want_default:
+                d = td
         return (n, kind, d, ann)
     for i, n in enumerate(pos):
         kind = 'po' if i < npo else 'pk'
         params.append(mk(n, kind, i >= len(pos) - ndef))
     if star:
-        params.append(('args', 'va', None, rng.choice(ANNOTATIONS) if rng.random() < .15 else None))
+        params.append(('args', 'va', None, rng.choice(SAFE_ANNOTATIONS) if rng.random() < .15 else None))
     for _ in range(nkw):
         params.append(mk(pool.pop(), 'ko', rng.random() < .6))
     if dstar:
-        params.append(('kwds', 'vk', None, rng.choice(ANNOTATIONS) if rng.random() < .15 else None))
-    ret = rng.choice(ANNOTATIONS) if rng.random() < .2 else None
+        params.append(('kwds', 'vk', None, rng.choice(SAFE_ANNOTATIONS) if rng.random() < .15 else None))
+    ret = rng.choice(SAFE_ANNOTATIONS) if rng.random() < .2 else None
     parts = [first] if first else []
     seen_po = False
     for j, (n, kind, d, ann) in enumerate(params):
